@@ -356,6 +356,47 @@ def run(ctx):
               "a timer armed during an exchange that then succeeded is still pending when the next REBALANCE_IN_PROGRESS arrives: the flag "
               "stays down, the heartbeats have stopped, the old timer finds nothing to do - the member never rejoins")
 
+    # ---- R9 a partition consumer that fails is the group's business: its start Deferred carries the group's error handler, and
+    # that handler takes every failure but a cancellation to the rejoin / stop decision
+    r9 = ctx.rule("R9", "every partition consumer's start Deferred has the group's error handler, which funnels all but cancellations into the error decision", 2, "B+C")
+    oce = ctx.func(GROUP + ".on_consumer_error")
+    ojc = None
+    for f_ in prog.functions(module="_group"):
+        if any(isinstance(c.func, ast.Name) for c in calls_in(f_, "Consumer")):
+            ojc = f_
+    need(ojc is not None, "no Consumer(...) construction in _group.py")
+    cjc = ctx.cfg(ojc)
+    starts_ = [n for n in cjc.nodes if any(call_name(c) == "start" and c.args and norm(c.args[0]) == "OFFSET_COMMITTED" for c in n.calls())]
+    regs_ = [cjc.containing(g["call"])[0].id for g in registrations(ojc, prog) if g["eb"] is not None and prog.resolve_callable(ojc, g["eb"]) is oce
+             and cjc.containing(g["call"])]
+    ok9 = bool(starts_) and bool(regs_)
+    for s_ in starts_:
+        if s_.id in regs_:
+            continue  # consumer.start(...).addErrback(handler) in one statement
+        loops9 = [t for t, lab in cjc.control_deps_transitive(s_.id) if t.kind == "for"]
+        nxt = [t for t, lab in cjc.succ[s_.id] if lab != ("exc",) and t not in regs_]
+        away = cjc.reach(nxt, avoid=regs_, follow_exc=False) | set(nxt)
+        ok9 = ok9 and not any(l_.id in away for l_ in loops9) and (cjc.exit.id not in away)
+    r9.check(ok9, "%s#every-consumer-start-watched" % ojc.qname, "a partition consumer is started and the next one is started (or the function ends) "
+             "without the group's error handler on its start Deferred", where(ojc, starts_[0].stmt if starts_ else ojc.node),
+             "two partitions of one topic: an error of the first consumer leads to no rejoin and does not surface on start(): that partition is never consumed again")
+    co = ctx.cfg(oce)
+    p9 = oce.first_param()
+    al9 = {p9}
+    for _ in range(2):
+        for x in walk_body_shallow(oce.body):
+            if isinstance(x, ast.Assign) and isinstance(x.value, ast.Name) and x.value.id in al9:
+                al9 |= {t.id for t in x.targets if isinstance(t, ast.Name)}
+    sink9 = [n.id for n in co.nodes if any(call_name(c) in ("rejoin_after_error", "stop") and call_recv(c) == "self" and any(
+        isinstance(y, ast.Name) and y.id in al9 for a_ in list(c.args) + [k.value for k in c.keywords] for y in ast.walk(a_)) for c in n.calls())]
+    from ..cfg import cond_atoms as _ca9
+    cancelled9 = [t for n in co.nodes for t, lab in co.succ[n.id] if lab and lab[0] == "cond" and any(
+        ("%s.check(CancelledError)" % a_, True) in _ca9(lab[1], lab[2]) for a_ in al9)]
+    r9.check(bool(sink9) and not co.normal_exits_from(co.entry.id, avoid=sink9 + cancelled9), "%s#all-but-cancellations-decided" % oce.qname,
+             "the group's consumer error handler can return without handing the failure to the error decision although it is not a cancellation",
+             where(oce, oce.node), "a commit rejected with IllegalGeneration while a (longer) rejoin back-off is pending: the evicted generation's "
+             "consumers keep processing and committing")
+
     # ---- R7 nobody but stop() cancels a group request in flight
     r = ctx.rule("R7", "a group request in flight (heartbeat, join exchange) is cancelled only after `_stopping` was raised", 1, "A+B")
     cci_ = prog.cls(COORD)
